@@ -383,6 +383,17 @@ Definition adjust_rule (r : rule) (bundle_gid : option id) : option rule :=
 
 Definition berr_to_err (e : berr) : err := EBuild.
 
+(* checkGroupID (fix 37320b1): the ID must survive path.Join("rule_group", id): not empty, no empty, "." or ".."
+   element (so no leading, trailing or doubled slash) *)
+Fixpoint split_slash (cur : list N) (s : list N) : list (list N) :=
+  match s with
+  | [] => [rev cur]
+  | c :: r => if (c =? 47)%N then rev cur :: split_slash [] r else split_slash (c :: cur) r
+  end.
+Definition seg_ok (seg : list N) : bool :=
+  negb (is_nil seg) && negb (key_eqb seg [46%N]) && negb (key_eqb seg [46%N; 46%N]).
+Definition gid_ok (g : id) : bool := forallb seg_ok (split_slash [] g).
+
 (* tryCommitPatch.  Returns the new manager and storage, and the outcome. *)
 Definition try_commit (m : manager) (s : storage) (p : patch) (order : list wref) (f : fault)
   : manager * storage * (option err) * bool (* recorded write order admissible *) :=
@@ -440,9 +451,10 @@ Definition make_patch (c : config) (u : update) : option patch :=
                                 (c_rules c) p
                   end) ops empty_patch)
       end
-  | USetGroup g => Some (p_set_group g empty_patch)
+  | USetGroup g => if gid_ok (g_id g) then Some (p_set_group g empty_patch) else None
   | UDeleteGroup gid => Some (p_delete_group gid empty_patch)
   | USetBundle b =>
+      if negb (gid_ok (b_id b)) then None else
       let p0 := match gget (b_id b) (c_groups c) with
                 | Some _ => fold_left (fun p kr => if key_eqb (fst (fst kr)) (b_id b)
                                                    then p_delete_rule (fst (fst kr)) (snd (fst kr)) p else p)
@@ -451,6 +463,7 @@ Definition make_patch (c : config) (u : update) : option patch :=
                 end in
       bundle_patch b p0
   | USetAllBundles bs override =>
+      if negb (forallb (fun b => gid_ok (b_id b)) bs) then None else
       let matches g := existsb (fun b => key_eqb (b_id b) g) bs in
       let p0 := fold_left (fun p kr => if override || matches (fst (fst kr))
                                        then p_delete_rule (fst (fst kr)) (snd (fst kr)) p else p) (c_rules c) empty_patch in
@@ -485,12 +498,20 @@ Definition load_rules (s : storage) : loadacc :=
         end
     end) (s_rules s) (LoadAcc [] [] []).
 
-Definition initialize (s : storage) (max_replicas : Z) : (manager + err) * storage :=
+(* loadRules: what it serves, and the storage after its repairs (saves first, then the deletions that do not
+   hit a key just rewritten) *)
+Definition load_repairs (s : storage) : loadacc * storage :=
   let acc := load_rules s in
   let s1 := fold_left (fun s r => apply_rule_write (rkey r, Some r) s) (la_save acc) s in
   (* a key that was just rewritten with the rule served under it is not deleted (fix of the repair path) *)
   let s2 := fold_left (fun s k => apply_rule_write (k, None) s)
                       (filter (fun k => negb (existsb (fun r => pair_eqb k (rkey r)) (la_save acc))) (la_delete acc)) s1 in
+  (acc, s2).
+
+(* Initialize starts from an empty configuration (fix 7c6ce3c: also when an earlier attempt on the same
+   manager failed half-way) *)
+Definition initialize (s : storage) (max_replicas : Z) : (manager + err) * storage :=
+  let '(acc, s2) := load_repairs s in
   let groups := s_groups s2 in
   let '(rules, s3) :=
     match la_rules acc with
@@ -512,6 +533,9 @@ Inductive op :=
 | ORestart (max_replicas : Z)                              (* a fresh RuleManager, Initialize from the storage *)
 | OUpdate (u : update) (f : fault) (worder : list wref)    (* worder = the storage writes the implementation issued *)
 | ORetry (u : update) (worder : list wref)                 (* the client repeats the update that just failed with a storage error *)
+| OInitFail (in_groups : bool)                             (* a fresh manager's Initialize hits a storage read error: in loadRules' scan
+                                                              (nothing happened yet) or in loadGroups' (loadRules' repairs are done) *)
+| OInitAgain (max_replicas : Z)                            (* Initialize is called again on that same manager *)
 | OCorruptRule (k : id * id) (v : sval)                    (* somebody else writes into rules/<k> *)
 | OCorruptDrop (k : id * id).
 
@@ -595,6 +619,15 @@ Definition step (st : state) (o : op) : state * obs :=
       end
   | OUpdate u f worder => step_update st u f worder
   | ORetry u worder => step_update st u None worder
+  | OInitFail in_groups =>
+      let st' := State None (if in_groups then snd (load_repairs (st_store st)) else st_store st) in
+      (st', observe (RErr EStorage) st')
+  | OInitAgain mr =>
+      let '(r, s') := initialize (st_store st) mr in
+      match r with
+      | inl m => let st' := State (Some m) s' in (st', observe ROk st')
+      | inr e => let st' := State None s' in (st', observe (RErr e) st')
+      end
   | OCorruptRule k v =>
       let v' := match v with SVRule r => SVRule (set_group r None) | SVGarbage => SVGarbage end in
       let st' := State (st_live st) (Storage (mset pair_cmp k v' (s_rules (st_store st))) (s_groups (st_store st))) in
@@ -653,6 +686,7 @@ Definition rules_of_update (u : update) : list rule :=
 Definition rules_of_op (o : op) : list rule :=
   match o with
   | ORestart mr => [default_rule mr]
+  | OInitAgain mr => [default_rule mr]
   | OUpdate u _ _ => rules_of_update u
   | ORetry u _ => rules_of_update u
   | OCorruptRule _ (SVRule r) => [r]
@@ -771,7 +805,7 @@ Fixpoint monitor_walk (known : list rule) (prev : option dump) (clean retryable 
                        | _ => false
                        end in
       let clean' := match o with
-                    | ORestart _ => ok_res                          (* Initialize re-synchronises storage and served state *)
+                    | ORestart _ | OInitAgain _ => ok_res           (* Initialize re-synchronises storage and served state *)
                     | ORetry _ _ => retryable && ok_res
                     | OUpdate _ (Some _) _ => clean && ok_res     (* acknowledged: must be durable, fault or not *)
                     | _ => clean && is_fault_free o
@@ -799,6 +833,12 @@ Fixpoint monitor_walk (known : list rule) (prev : option dump) (clean retryable 
                             | Some r => dump_diff "C13:retry-does-not-converge-" l r
                             | None => ["C13:restart-fails-after-retried-update"]
                             end else [])
+        | OInitAgain _, ROk, _, Some l =>
+            monitor_index known l ++
+            (match o_reload b with
+             | Some r => dump_diff "C13:retried-initialize-leaves-storage-different-" l r
+             | None => ["C13:restart-fails-after-retried-initialize"]
+             end)
         | ORestart _, ROk, pv, Some l =>
             monitor_index known l ++
             (match pv with Some p => if clean then dump_diff "C13:restart-changed-" p l else [] | None => [] end) ++
